@@ -159,3 +159,85 @@ func ListSites(root *Node) []ListSite {
 	rec(root)
 	return sites
 }
+
+// Mandatory operands (second family of guaranteed breakers): roles whose whole child subtree can be deleted
+// from a valid program only at the price of a syntax error — the grammar of PHP <= 7.4 has no production in
+// which the neighbours of that child may touch (a catch without its variable, "if ( )", "$a = ;", "new ;",
+// "$a -> ;", "x ? y : ;", "foreach ($a as )", "const A = ;" ...). Operands of unary and binary operators are
+// deliberately absent: "$a - $b - $c" without "$b" is "$a - - $c", which is valid.
+var mandatoryRoles = map[string]bool{
+	"StmtCatch.Var": true, "StmtForeach.Var": true, "StmtForeach.Expr": true, "StmtWhile.Cond": true, "StmtIf.Cond": true, "StmtElseIf.Cond": true,
+	"StmtDo.Cond": true, "StmtSwitch.Cond": true, "ExprTernary.IfFalse": true, "ExprAssign.Expr": true, "ExprAssignReference.Expr": true,
+	"StmtClass.Name": true, "StmtInterface.Name": true, "StmtTrait.Name": true, "StmtConstant.Expr": true, "ExprNew.Class": true, "ExprInstanceOf.Class": true,
+	"ExprPropertyFetch.Prop": true, "ExprMethodCall.Method": true, "ExprStaticCall.Call": true, "ExprClassConstFetch.Const": true,
+	"ExprStaticPropertyFetch.Prop": true, "StmtThrow.Expr": true, "StmtStaticVar.Expr": true, "StmtProperty.Expr": true, "StmtGoto.Label": true,
+}
+
+// MandSpan is one deletable mandatory operand: the tokens [From, To) of the program's token sequence.
+type MandSpan struct {
+	Rule     string
+	From, To int
+}
+
+// MandatorySpans lists the mandatory operands of a program that lie in PHP mode outside strings.
+func MandatorySpans(root *Node) []MandSpan {
+	toks := root.Tokens()
+	var out []MandSpan
+	pos := 0
+	var rec func(n *Node)
+	rec = func(n *Node) {
+		role := map[*Node]string{}
+		for _, k := range n.Kids {
+			if !k.List && k.N != nil {
+				role[k.N] = k.Role
+			}
+		}
+		for _, p := range n.Parts {
+			switch v := p.(type) {
+			case Tok:
+				pos++
+			case *Node:
+				if v == nil {
+					continue
+				}
+				from := pos
+				rec(v)
+				r, ok := role[v]
+				if !ok || pos == from {
+					continue
+				}
+				rule := n.Kind + "." + r
+				if !mandatoryRoles[rule] && !(r == "Expr" && len(n.Kind) > 10 && n.Kind[:10] == "ExprAssign" && n.Kind != "ExprAssignReference" && mandatoryRoles["ExprAssign.Expr"]) {
+					continue
+				}
+				clean := from > 0 && pos < len(toks)
+				for i := from; i < pos && clean; i++ {
+					if toks[i].Str {
+						clean = false
+					}
+				}
+				// the neighbours must be ordinary PHP-mode tokens as well
+				if clean && (toks[from-1].Str || toks[pos].Str) {
+					clean = false
+				}
+				// a member name may only go where a closer or separator follows: "$a -> xor (..)", "A :: xor (..)" and
+				// "$a -> {..}" are valid (reserved words are member names, a brace expression is one)
+				if clean && (r == "Prop" || r == "Method" || r == "Call" || r == "Const") {
+					switch toks[pos].S {
+					case ";", ")", "]", ",", "}":
+					default:
+						clean = false
+					}
+				}
+				if clean {
+					out = append(out, MandSpan{rule, from, pos})
+				}
+			}
+		}
+	}
+	rec(root)
+	if pos != len(toks) {
+		return nil // the Parts walk and Tokens() disagree: no claim
+	}
+	return out
+}
